@@ -133,6 +133,7 @@ func indexGuarded(info *types.Info, flow *eng.FlowGraph, body *ast.BlockStmt, ix
 			return true
 		}
 	}
+	defs := boolLocalDefs(info, body)
 	// (c0) short-circuit guard in the same expression: len(base) > k && base[k]..., len(base) == 0 || base[0]...
 	sc := false
 	ast.Inspect(body, func(n ast.Node) bool {
@@ -141,7 +142,7 @@ func indexGuarded(info *types.Info, flow *eng.FlowGraph, body *ast.BlockStmt, ix
 			return true
 		}
 		if be.Y.Pos() <= ix.Pos() && ix.End() <= be.Y.End() {
-			if edgeProvesLen(info, be.X, be.Op == token.LAND, base, k) {
+			if edgeProvesLen(info, be.X, be.Op == token.LAND, base, k, defs) {
 				sc = true
 			}
 		}
@@ -156,7 +157,7 @@ func indexGuarded(info *types.Info, flow *eng.FlowGraph, body *ast.BlockStmt, ix
 		return true
 	}
 	reach := flow.ReachesWithout(pt, func(nd ast.Node) bool { return false }, func(cond ast.Expr, taken bool) bool {
-		return !edgeProvesLen(info, cond, taken, base, k)
+		return !edgeProvesLen(info, cond, taken, base, k, defs)
 	})
 	if !reach {
 		return true
@@ -166,11 +167,19 @@ func indexGuarded(info *types.Info, flow *eng.FlowGraph, body *ast.BlockStmt, ix
 
 // edgeProvesLen: taking the `taken` edge of cond proves len(base) > k (every assumption
 // len(base) == 0..k contradicts the edge).
-func edgeProvesLen(info *types.Info, cond ast.Expr, taken bool, base string, k int64) bool {
+func edgeProvesLen(info *types.Info, cond ast.Expr, taken bool, base string, k int64, defs map[types.Object]ast.Expr) bool {
 	{
 		provesEnough := true
 		for l := int64(0); l <= k; l++ {
-			t := eng.EvalBool(info, cond, func(e ast.Expr) eng.Tri {
+			var atom func(e ast.Expr) eng.Tri
+			atom = func(e ast.Expr) eng.Tri {
+				// a bool local defined once from a guard expression (hasOrder := x != nil && len(x.s) > 0)
+				if id, ok := ast.Unparen(e).(*ast.Ident); ok {
+					if d, ok := defs[info.Uses[id]]; ok {
+						return eng.EvalBool(info, d, atom)
+					}
+					return eng.Unknown
+				}
 				be, ok := ast.Unparen(e).(*ast.BinaryExpr)
 				if !ok {
 					return eng.Unknown
@@ -202,7 +211,8 @@ func edgeProvesLen(info *types.Info, cond ast.Expr, taken bool, base string, k i
 					return eng.Unknown
 				}
 				return eng.TriOf(r)
-			})
+			}
+			t := eng.EvalBool(info, cond, atom)
 			// under len==l the condition has value t; the edge `taken` is possible unless t contradicts it
 			possible := t == eng.Unknown || (t == eng.True) == taken
 			if possible {
@@ -212,4 +222,83 @@ func edgeProvesLen(info *types.Info, cond ast.Expr, taken bool, base string, k i
 		_ = strings.HasPrefix
 		return provesEnough
 	}
+}
+
+// boolLocalDefs: bool locals with exactly one definition and no other assignment (and whose address
+// is not taken): their defining expression can stand in for them in a branch condition, provided
+// the operands are not reassigned in between — restricted here to definitions whose operands are
+// selector chains and len() calls over parameters/fields that the function never assigns.
+func boolLocalDefs(info *types.Info, body *ast.BlockStmt) map[types.Object]ast.Expr {
+	count := map[types.Object]int{}
+	def := map[types.Object]ast.Expr{}
+	assignedRoots := map[types.Object]bool{}
+	ast.Inspect(body, func(n ast.Node) bool {
+		switch s := n.(type) {
+		case *ast.AssignStmt:
+			for i, l := range s.Lhs {
+				o := eng.ObjOf(info, l)
+				if o == nil {
+					// x.f = …, x[i] = …: remember the root as assigned
+					root := ast.Unparen(l)
+					for {
+						switch x := root.(type) {
+						case *ast.SelectorExpr:
+							root = ast.Unparen(x.X)
+							continue
+						case *ast.IndexExpr:
+							root = ast.Unparen(x.X)
+							continue
+						case *ast.StarExpr:
+							root = ast.Unparen(x.X)
+							continue
+						}
+						break
+					}
+					if ro := eng.ObjOf(info, root); ro != nil {
+						assignedRoots[ro] = true
+					}
+					continue
+				}
+				count[o]++
+				if b, ok := o.Type().Underlying().(*types.Basic); ok && b.Kind() == types.Bool && len(s.Lhs) == len(s.Rhs) {
+					def[o] = s.Rhs[i]
+				}
+			}
+		case *ast.UnaryExpr:
+			if s.Op == token.AND {
+				if o := eng.ObjOf(info, s.X); o != nil {
+					count[o] += 2
+				}
+			}
+		case *ast.IncDecStmt:
+			if o := eng.ObjOf(info, s.X); o != nil {
+				count[o] += 2
+			}
+		}
+		return true
+	})
+	out := map[types.Object]ast.Expr{}
+	for o, d := range def {
+		if count[o] != 1 {
+			continue
+		}
+		stable := true
+		ast.Inspect(d, func(n ast.Node) bool {
+			if id, ok := n.(*ast.Ident); ok {
+				if v, isVar := info.Uses[id].(*types.Var); isVar && (count[v] > 1 || assignedRoots[v]) {
+					stable = false
+				}
+			}
+			if call, ok := n.(*ast.CallExpr); ok {
+				if f, ok := call.Fun.(*ast.Ident); !ok || f.Name != "len" {
+					stable = false
+				}
+			}
+			return true
+		})
+		if stable {
+			out[o] = d
+		}
+	}
+	return out
 }
